@@ -1022,7 +1022,77 @@ func ruleC09Dispatch(p *Program, r *Run, sites []tokenSite, classes map[string][
 	for _, k := range kws {
 		r.Check(got[k] == docKeywords[k] && got[k] != "", "C09/keywords", fmt.Sprintf("parser.keywords[%q]", k), p.Pos(kwPos), "keyword maps to "+docKeywords[k], fmt.Sprintf("keyword table has %q -> %q, documented %q", k, got[k], docKeywords[k]))
 	}
+	// a word is a keyword by its spelling as written: what is looked up in the table is the scanned text itself, not
+	// something computed from it (folded to lower case, trimmed) - `By`, `IN` and `Or` are ordinary names
+	for i, key := range p.keywordLookups(kwPos) {
+		rk := p.ResolveDeep(key)
+		bad := ""
+		ast.Inspect(rk, func(n ast.Node) bool {
+			call, ok := n.(*ast.CallExpr)
+			if !ok || bad != "" {
+				return bad == ""
+			}
+			if tv, isConv := p.Info.Types[call.Fun]; isConv && tv.IsType() {
+				return true
+			}
+			bad = exprStr(call.Fun)
+			return false
+		})
+		r.Check(bad == "", "C09/keywords", fmt.Sprintf("parser keyword lookup #%d uses the spelling as written", i+1), p.Pos(key.Pos()), "the key of the lookup is the scanned text itself",
+			fmt.Sprintf("the keyword table is consulted with %s(...) of the scanned word, not with the word: identifiers that differ from a keyword only in what that function removes (their case, say) turn into keywords and can no longer be used as names", bad))
+	}
 	r.Floor("C09/keywords", 4)
+}
+
+// keywordLookups: the key expressions with which the keyword table (a map variable or a function, declared at pos)
+// is consulted.
+func (p *Program) keywordLookups(pos token.Pos) []ast.Expr {
+	pkg := p.Parser
+	info := pkg.TypesInfo
+	var table types.Object
+	for _, f := range pkg.Syntax {
+		for _, d := range f.Decls {
+			switch d := d.(type) {
+			case *ast.GenDecl:
+				for _, sp := range d.Specs {
+					vs, ok := sp.(*ast.ValueSpec)
+					if !ok || !(vs.Pos() <= pos && pos <= vs.End()) {
+						continue
+					}
+					for _, n := range vs.Names {
+						table = info.Defs[n]
+					}
+				}
+			case *ast.FuncDecl:
+				if d.Pos() == pos {
+					table = info.Defs[d.Name]
+				}
+			}
+		}
+	}
+	if table == nil {
+		return nil
+	}
+	var out []ast.Expr
+	for _, fd := range AllFuncs(pkg) {
+		if fd.Body == nil {
+			continue
+		}
+		ast.Inspect(fd.Body, func(n ast.Node) bool {
+			switch v := n.(type) {
+			case *ast.IndexExpr:
+				if objOf(info, v.X) == table {
+					out = append(out, v.Index)
+				}
+			case *ast.CallExpr:
+				if objOf(info, v.Fun) == table && len(v.Args) == 1 {
+					out = append(out, v.Args[0])
+				}
+			}
+			return true
+		})
+	}
+	return out
 }
 
 // evalRunePred evaluates a single-return boolean predicate over one rune argument.
@@ -1922,11 +1992,193 @@ func (c *lookaheadClient) Inline(e *Engine, call *ast.CallExpr, callee *types.Fu
 	return c.inline[callee]
 }
 
+// PostAssign / PostCall: which variable holds the rune read last (and its ok flag), until it is given back.
+func (c *lookaheadClient) PostAssign(e *Engine, st *State, lhs, rhs []ast.Expr, stmt ast.Stmt) *State {
+	out := st
+	if n := c.loopClient.PostAssign(e, st, lhs, rhs, stmt); n != nil {
+		out = n
+	}
+	if len(lhs) == 2 && len(rhs) == 1 && len(e.Frames()) == 0 {
+		if call, ok := ast.Unparen(rhs[0]).(*ast.CallExpr); ok {
+			if callee := Callee(e.Info, call); cursorOf(callee) == "scanner" && fnName(callee) == "next" {
+				rk, okk := e.CanonSt(out, lhs[0]), e.CanonSt(out, lhs[1])
+				if rk.OK {
+					out = out.WithExt("la:rune", rk.Key)
+					out = out.WithExt("la:ok", "")
+					if okk.OK {
+						out = out.WithExt("la:ok", okk.Key)
+					}
+				}
+			}
+		}
+	}
+	if out != st {
+		return out
+	}
+	return nil
+}
+
+func (c *lookaheadClient) PostCall(e *Engine, st *State, call *ast.CallExpr, callee *types.Func) *State {
+	out := st
+	if n := c.loopClient.PostCall(e, st, call, callee); n != nil {
+		out = n
+	}
+	if cursorOf(callee) == "scanner" {
+		switch fnName(callee) {
+		case "prev", "setPos":
+			if out.Ext("la:rune") != "" {
+				out = out.WithExt("la:rune", "").WithExt("la:ok", "")
+			}
+		}
+	}
+	if out != st {
+		return out
+	}
+	return nil
+}
+
+// PreAssign: the next read replaces the variable - what the path knows about the rune it is about to forget is
+// judged now.
+func (c *lookaheadClient) PreAssign(e *Engine, st *State, lhs, rhs []ast.Expr, stmt ast.Stmt) *State {
+	out := st
+	if n := c.loopClient.PreAssign(e, st, lhs, rhs, stmt); n != nil {
+		out = n
+	}
+	if len(lhs) == 2 && len(rhs) == 1 && len(e.Frames()) == 0 {
+		if call, ok := ast.Unparen(rhs[0]).(*ast.CallExpr); ok {
+			if callee := Callee(e.Info, call); cursorOf(callee) == "scanner" && fnName(callee) == "next" {
+				if !c.classified(out) {
+					out = out.WithExt("la:unk", "1")
+				}
+				if c.failedMandatory(out) {
+					out = out.WithExt("la:eof", "1")
+				}
+			}
+		}
+	}
+	if out != st {
+		return out
+	}
+	return nil
+}
+
+// failedMandatory: the read before this point failed (end of input) and the method has not entered a loop yet - it
+// is still in the part of the token that has to be there.
+func (c *lookaheadClient) failedMandatory(st *State) bool {
+	if st.Ext("la:inloop") != "" {
+		return false
+	}
+	okk := st.Ext("la:ok")
+	if okk == "" {
+		return false
+	}
+	f := st.Get(okk)
+	return f != nil && f.HasEq && f.Eq == "false"
+}
+
+// LoopHead: entering the method's first loop (the repeated, optional tail of the token) after a read that failed.
+func (c *lookaheadClient) LoopHead(e *Engine, st *State, loop ast.Stmt) *State {
+	out := st
+	if n := c.loopClient.LoopHead(e, st, loop); n != nil {
+		out = n
+	}
+	if len(e.Frames()) == 0 {
+		if c.failedMandatory(out) {
+			out = out.WithExt("la:eof", "1")
+		}
+		if out.Ext("la:inloop") == "" {
+			out = out.WithExt("la:inloop", "1")
+		}
+	}
+	if out != st {
+		return out
+	}
+	return nil
+}
+
+// classified: the rune read last and kept is a known character or lies in a known class (or there is none).
+func (c *lookaheadClient) classified(st *State) bool {
+	rk := st.Ext("la:rune")
+	if rk == "" {
+		return true
+	}
+	if okk := st.Ext("la:ok"); okk != "" {
+		if f := st.Get(okk); f != nil && f.HasEq && f.Eq == "false" {
+			return true // nothing was read
+		}
+	}
+	f := st.Get(rk)
+	if f != nil && (f.HasEq || (f.Lo != nil && f.Hi != nil)) {
+		return true
+	}
+	// something positive is known about it: a predicate that held (isDigit(c), strings.ContainsRune("eE", c)), or
+	// an equality with another value (c == want)
+	for k, pf := range st.facts {
+		if pf == nil || !pf.HasEq || pf.Eq != "true" || k == rk || !strings.Contains(k, rk) {
+			continue
+		}
+		if strings.Contains(k, " < ") || strings.Contains(k, " <= ") {
+			continue // one-sided
+		}
+		if i := strings.Index(k, rk); i > 0 && strings.ContainsAny(k[i-1:i], "(, ") {
+			if j := i + len(rk); j < len(k) && strings.ContainsAny(k[j:j+1], "), ") {
+				return true
+			}
+		}
+	}
+	return false
+}
+
+// ScopeEnd: the variable holding the rune read last goes out of scope (`c, ok := s.next()` inside a loop body): what
+// the path knows about it is judged now, while it is still known.
+func (c *lookaheadClient) ScopeEnd(e *Engine, st *State, n ast.Node) *State {
+	rk := st.Ext("la:rune")
+	if rk == "" || n == nil || len(e.Frames()) > 0 {
+		return nil
+	}
+	lo, hi := e.P.Fset.Position(n.Pos()).Offset, e.P.Fset.Position(n.End()).Offset
+	if !extMentionsScope(rk, lo, hi) {
+		return nil
+	}
+	out := st
+	if !c.classified(st) {
+		out = out.WithExt("la:unk", "1")
+	}
+	return out.WithExt("la:rune", "").WithExt("la:ok", "")
+}
+
+// success: the look-ahead says yes only when it knows what it has taken. The rune read last and not given back is
+// classified on this path - equal to a known character, or inside a range (a character predicate that held); a
+// rune of which the path only knows what it is not has been swallowed into the token unseen.
+func (c *lookaheadClient) success(e *Engine, st *State, ret *ast.ReturnStmt) {
+	// the end of the input inside the part that has to be there is a failure: no path on which a read failed before
+	// the method's first loop goes on reading, enters the loop or answers yes
+	if eof := st.Ext("la:eof") != "" || c.failedMandatory(st); eof || st.Ext("la:rune") != "" {
+		key := fmt.Sprintf("%s return #%d (true) has read what has to be there", c.fn, returnOrdinal(e.Func, ret))
+		e.Site("C09/lookahead", key, ret, !eof, "no read failed before the method's first loop on any path to this return")
+		if eof {
+			e.Site("C09/lookahead", key, ret, false, "the look-ahead reports success on a path on which a read failed at the end of the input before its first loop - inside the part of the token that must be present (`ok && …` for `!ok || …`): a token cut off by the end of the input is accepted, and the same text followed by anything else is not")
+		}
+	}
+	if st.Ext("la:rune") == "" && st.Ext("la:unk") == "" {
+		return
+	}
+	classified := c.classified(st) && st.Ext("la:unk") == ""
+	key := fmt.Sprintf("%s return #%d (true) knows the last rune it took", c.fn, returnOrdinal(e.Func, ret))
+	e.Site("C09/lookahead", key, ret, classified, "the rune read last and not given back is a known character or lies in a known class on every path to this return")
+	if !classified {
+		e.Site("C09/lookahead", key, ret, false, "the look-ahead reports success on a path where the rune it read last (and kept) is not known to be any particular character or class - only what it is not: a test that was meant to reject it does not (`&&` for `||`, a dropped check), and an arbitrary character becomes part of the token")
+	}
+}
+
 func (c *lookaheadClient) Return(e *Engine, st *State, ret *ast.ReturnStmt) {
 	if e.Lit != nil || ret == nil || len(ret.Results) != 1 || !e.Reporting() {
 		return
 	}
 	v := constOf(e.Info, ret.Results[0])
+	if v != nil && v.String() == "true" && len(e.Frames()) == 0 {
+		c.success(e, st, ret)
+	}
 	if v == nil || v.String() != "false" {
 		return
 	}
